@@ -32,11 +32,20 @@ def check(spec: dict) -> core.CaseResult:
     return dagprop.result(obs, findings, nt, labels, hang_is_violation=False, prop='C03')
 
 
+def judge_obs(case: dict, obs) -> core.CaseResult:
+    ex = oracles.expect_for(case, obs)
+    f = specs.features(case)
+    return core.CaseResult(findings=oracles.c03_once_only_if_needed(case, obs, ex), nontrivial=f['pre_cached_proper'], labels=('exhaustive-small',), summary=None)
+
+
 def plan(tier: str) -> list[dict]:
-    return dagprop.std_plan(tier, controlled=(12, 150, 2500), serial=(1, 60, 1200), fork=(2, 25, 500), spawn=(1, 6, 120))
+    return list(dagprop.std_plan(tier, controlled=(12, 150, 2500), serial=(1, 60, 1200), fork=(2, 25, 500), spawn=(1, 6, 120))) + dagprop.exhaustive_jobs(tier, 4)
 
 
 def run_job(rec: core.Recorder, job: dict, seed: int) -> None:
+    if job['engine'] == 'exhaustive-small':
+        dagprop.run_exhaustive_job(rec, job, judge_obs, failing=False, cached=True)
+        return
     eng = job['engine']
     strat = specs.dag_spec(max_nodes=5 if eng == 'spawn' else 9, backends=(eng,), dup_bias=True, bust=True)
     core.run_hypothesis(rec, eng, strat, check, max_examples=job['n'], seed=seed,
